@@ -71,7 +71,8 @@ impl AsyncFileSystem for AsyncPhysicalFS {
             self.get_path(path)
                 .read_dir()
                 .await?
-                .map(|entry| entry.unwrap().file_name().into_string().unwrap()),
+                .filter_map(|entry| futures::future::ready(entry.ok()))
+                .map(|entry| entry.file_name().to_string_lossy().into_owned()),
         );
         Ok(entries)
     }
@@ -82,11 +83,13 @@ impl AsyncFileSystem for AsyncPhysicalFS {
             Ok(()) => Ok(()),
             Err(e) => match e.kind() {
                 ErrorKind::AlreadyExists => {
-                    let metadata = async_std::fs::metadata(&fs_path).await.unwrap();
-                    if metadata.is_dir() {
-                        return Err(VfsError::from(VfsErrorKind::DirectoryExists));
+                    match async_std::fs::metadata(&fs_path).await {
+                        Ok(metadata) if metadata.is_dir() => {
+                            Err(VfsError::from(VfsErrorKind::DirectoryExists))
+                        }
+                        // also covers an occupant that cannot be inspected, e.g. a dangling symlink
+                        _ => Err(VfsError::from(VfsErrorKind::FileExists)),
                     }
-                    Err(VfsError::from(VfsErrorKind::FileExists))
                 }
                 _ => Err(e.into()),
             },
@@ -94,7 +97,12 @@ impl AsyncFileSystem for AsyncPhysicalFS {
     }
 
     async fn open_file(&self, path: &str) -> VfsResult<Box<dyn SeekAndRead + Send + Unpin>> {
-        Ok(Box::new(File::open(self.get_path(path)).await?))
+        let file = File::open(self.get_path(path)).await?;
+        // opening a directory read-only succeeds on Unix, only reading from it fails
+        if file.metadata().await?.is_dir() {
+            return Err(VfsErrorKind::Other("Not a file".into()).into());
+        }
+        Ok(Box::new(file))
     }
 
     async fn create_file(&self, path: &str) -> VfsResult<Box<dyn Write + Send + Unpin>> {
